@@ -198,6 +198,44 @@ def h_consumer_fault(ctx, k, m):
     return obs
 
 
+def h_reentrant(ctx, k, m):
+    """the layer above reads on: while it handles one of the frames (solver's choice) the next read arrives and is pushed into the layer
+    from inside the hand-over (an application that reconnects or pumps the socket from a callback): the frames handed upward are
+    still exactly the frames of the stream, each once, in order"""
+    layer, up, down = _layer(True)
+    ns, payloads, stream = _frames(ctx, k)
+    total = H.length_of(stream)
+    bounds = _cuts(ctx, total, m)
+    at = ctx.choice("delivery_during_which_the_next_reads_arrive", list(range(k)))
+    how_many = ctx.choice("reads_pushed_from_inside", ["one", "all pending"])
+    chunks, rest = [], stream
+    for i in range(m):
+        ln = bounds[i + 1] - bounds[i]
+        chunks.append(rest[:ln])
+        rest = rest[ln:]
+    fed = [0]
+    seen = []
+
+    def consumer(frame):
+        seen.append(frame)
+        if len(seen) - 1 == at:
+            n = 1 if how_many == "one" else m
+            while n > 0 and fed[0] < m:
+                c = chunks[fed[0]]
+                fed[0] += 1
+                n -= 1
+                layer.receive(c)
+    layer.toUpper = consumer
+    while fed[0] < m:
+        c = chunks[fed[0]]
+        fed[0] += 1
+        layer.receive(c)
+    obs = [("every frame is handed upward exactly once (%d deliveries for %d frames)" % (len(seen), k), len(seen) == k)]
+    for j in range(min(k, len(seen))):
+        obs.append(("delivery %d is frame %d, intact" % (j, j), H.rope_eq(seen[j], payloads[j])))
+    return obs
+
+
 def _is_bytes(x):
     if isinstance(x, SymSeq):
         return x.kind == "bytes"
@@ -315,6 +353,8 @@ def cases(tier):
                        timeout_s=120 if tier == "quick" else 2400, max_paths=200000))
     for k, m in ((2, 1), (2, 2), (3, 2)) if tier == "quick" else ((2, 1), (2, 2), (3, 2), (3, 3), (4, 2)):
         cs.append(dict(name="consumer-fault[k=%d,m=%d]" % (k, m), fn=h_consumer_fault, args=(k, m), weight=(k + 1) ** m, timeout_s=120 if tier == "quick" else 2400, max_paths=200000))
+    for k, m in ((2, 2), (3, 2)) if tier == "quick" else ((2, 2), (3, 2), (3, 3), (4, 3)):
+        cs.append(dict(name="reads-pushed-from-inside-a-delivery[k=%d,m=%d]" % (k, m), fn=h_reentrant, args=(k, m), weight=2 * (k + 1) ** m, timeout_s=300 if tier == "quick" else 2400, max_paths=200000))
     for w in (0, 1, 2):
         cs.append(dict(name="step[whole=%d]" % w, fn=h_step, args=(w,), weight=30 * (w + 1), timeout_s=120 if tier == "quick" else 1200))
     for n in (1100,) if tier == "quick" else (1100, 4000):
